@@ -355,6 +355,20 @@ def gen_sources(ctx):
     for i in range(0, len(names), 6):
         grp = names[i:i + 6]
         srcs.append(("".join("PRINT(%s)\n" % n for n in grp) + "".join("TrackName(%s) " % n for n in grp) + "cde", "builtin_variables"))
+    # user functions called with arguments that HAVE AN EFFECT when they are evaluated (a random draw, a call that writes notes,
+    # a counter): whatever evaluates an argument more or less often under some configuration (debug level, language, entry
+    # point) changes the bytes
+    effect_args = ["Random(40,80)", "Random(12)+60", "RandomSelect(60,62,64,67)", "G()", "G()+1", "H(Random(3))", "NEXT()", "60+NEXT()"]
+    for _ in range(12 * scale):
+        nargs = rng.choice([1, 1, 2, 3])
+        params = ["A", "B", "C"][:nargs]
+        body = rng.choice(["n=A", "n(A),8", "INT K=A; n=K", "IF(A>60){ n=A }ELSE{ n=60 }", "FOR(INT I=0;I<2;I++){ n=A }", "PRINT(A) n=A"])
+        calls = " ".join("P(%s)" % ",".join(rng.choice(effect_args) for _ in params) for _ in range(rng.randrange(1, 5)))
+        where = rng.choice(["%s", "[2 %s]", "TR=2 %s TR=1 c", "FOR(INT J=0;J<2;J++){ %s }", "INT R=F2(%s)" % rng.choice(effect_args) + " n=R %s"])
+        srcs.append(("INT CNT=0; FUNCTION NEXT(){ CNT=CNT+1; RETURN(CNT) } FUNCTION G(){ c16 RETURN(64) } FUNCTION H(X){ n(70+X),16 RETURN(65+X) } "
+                     "FUNCTION F2(X){ RETURN(X+1) } FUNCTION P(%s){ %s } l8 %s" % (",".join("INT " + p for p in params), body, where % calls), "effectful_arguments"))
+    srcs += [("FUNCTION PLAYN(INT A){ n=A }; PLAYN(Random(40,80)) PLAYN(Random(40,80)) PLAYN(Random(40,80))", "effectful_arguments"),
+             ("FUNCTION G(){ c RETURN(64) }; FUNCTION PLAYN(INT A){ n=A }; PLAYN(G())", "effectful_arguments")]
     samples = mmlgen.samples()
     srcs += [(s, "samples") for s in samples]
     for _ in range(24 * scale):
